@@ -405,6 +405,97 @@ def campaign(chk, n, focus, monitors, extra_events=None):
     return tie_bad, mon_bad
 
 
+ALPHABET = ["i:nb1", "i:b1", "i:nb2", "i:b1b", "a:cur", "a:stale", "r:nb1", "r:b1", "t:1000", "c:last", "c:first", "X", "L"]
+
+
+def concretize(abstract):
+    """Run the abstract letters online against the implementation: 'a:cur' is the ACK number that matches now, 'c:last' /
+    'c:first' the newest / oldest request still running.  Returns (concrete events, steps, listeners, seq)."""
+    r = A.Runner()
+    try:
+        events, steps = [], []
+        rid = 0
+        issued = []
+        for x in abstract:
+            if x.startswith("i:"):
+                rid += 1
+                ev = ("issue", rid, x[2:])
+                issued.append(rid)
+            elif x == "a:cur":
+                ev = ("ack", r.cur_seq())
+            elif x == "a:stale":
+                ev = ("ack", (r.cur_seq() + 2) % 4)
+            elif x.startswith("r:"):
+                ev = ("rsp", x[2:])
+            elif x.startswith("t:"):
+                ev = ("tick", int(x[2:]))
+            elif x.startswith("c:"):
+                live = [i for i in issued if not r.tasks[i].done()]
+                if not live:
+                    ev = ("tick", 1)
+                else:
+                    ev = ("cancel", live[-1] if x == "c:last" else live[0])
+            elif x == "X":
+                ev = ("close",)
+            else:
+                ev = ("lost",)
+            events.append(ev)
+            steps.append(r.step(ev))
+        for ev in (("tick", 1000), ("tick", 6000)):
+            events.append(ev)
+            steps.append(r.step(ev))
+        return events, [canon_step(o) for o in steps], r.listeners(), r.cur_seq(), list(r.wtimes)
+    finally:
+        r.close()
+
+
+def exhaustive(chk, depth, monitors, letters=None, must_issue=True):
+    """EVERY history of at most `depth` letters over the alphabet (each followed by closing ticks), the first letter an issue:
+    implementation vs model step by step, and the monitors on every one."""
+    import itertools
+    letters = letters or ALPHABET
+    first = [x for x in letters if x.startswith("i:")] if must_issue else letters
+    seqs = []
+    for d in range(1, depth + 1):
+        for f in first:
+            for rest in itertools.product(letters, repeat=d - 1):
+                seqs.append((f,) + rest)
+    runs = [concretize(a) for a in seqs]
+    lines = ["api " + " ".join(ev_text(e) for e in evs) for evs, _, _, _, _ in runs]
+    outs = chk.model.batch(lines)
+    tie_bad = mon_bad = None
+    for (events, isteps, inl, ips, wt), o, a in zip(runs, outs, seqs):
+        chk.evaluations += 1
+        A.run_scenario.last_wtimes = wt          # the timing monitors read the write times of the run they judge
+        if o.startswith("ERROR"):
+            msteps, mnl, mps = [["MODEL-ERROR"]], -1, -1
+        else:
+            body, tail = o.split(" // ")
+            msteps = [canon_step([x for x in p_.strip().split(" ") if x]) for p_ in body.split(" / ")]
+            mnl = int(tail.split("listeners=")[1].split(" ")[0])
+            mps = int(tail.split("seq=")[1])
+        if (strip_steps(isteps), inl, ips) != (msteps, mnl, mps) and tie_bad is None:
+            k = next((i for i, (x, y) in enumerate(zip(strip_steps(isteps), msteps)) if x != y), -1)
+            tie_bad = {"letters": list(a), "events": [ev_text(e) for e in events], "first_diff_step": k,
+                       "impl": isteps[k] if k >= 0 else [inl, ips], "model": msteps[k] if 0 <= k < len(msteps) else [mnl, mps]}
+        for name, mon in monitors:
+            m = mon(events, isteps, inl) if name == "cleanup" else mon(events, isteps)
+            if m is not None and mon_bad is None:
+                mon_bad = (name, m)
+                chk.violation(m, {"letters": list(a), "events": [ev_text(e) for e in events], "raw": events, "impl": isteps}, key=None)
+    chk.count("exhaustive_histories", len(seqs))
+    chk.oblige("tieB:api-state-machine-vs-model(ALL %d histories of <= %d letters over %d)" % (len(seqs), depth, len(letters)),
+               tie_bad is None, json.dumps(tie_bad)[:400] if tie_bad else "")
+    chk.oblige("monitor:%s-on-all-short-histories" % "+".join(nm for nm, _ in monitors), mon_bad is None, repr(mon_bad)[:300] if mon_bad else "")
+    if tie_bad and not mon_bad:
+        from common import BuildBroken
+        chk.broken.append(BuildBroken("correspondence", "api/uart behaviour differs from the state-machine model on a short history",
+                                      json.dumps(tie_bad)))
+    chk.extra.setdefault("exhaustive_parts", []).append("all %d histories of at most %d letters over the %d-letter alphabet %s"
+                                                        % (len(seqs), depth, len(letters), letters))
+    return tie_bad, mon_bad
+
+
 def run_mon(mon, name, events):
     steps, nl, ps = impl_run(events)
     return mon(events, steps, nl) if name == "cleanup" else mon(events, steps)
